@@ -161,7 +161,7 @@ theorem image_core_roundtrip (c : ICfg) (v : Nat → Plane) (tail : List Nat)
     (hw : 0 < c.cbw) (hh : 0 < c.cbh) (hP1 : 1 ≤ c.P) (hP2 : c.P ≤ 16)
     (hL : bndL c.L (2 ^ c.P) < 2 ^ 25)
     (hv : ∀ k x y, -(2 ^ (c.P - 1)) ≤ v k x y ∧ v k x y < 2 ^ (c.P - 1))
-    (hz : ZeroBlockHyp) (hs : SegmentLenHyp) :
+    (hs : SegmentLenHyp) :
     ∃ body, encodeBody c v = some body ∧ ∃ v', decodeBody c (body ++ tail) = some v' ∧
       ∀ k x y, k < c.C → x < c.W → y < c.H → v' k x y = v k x y := by
   have hM0 : (0 : Int) ≤ 2 ^ c.P := Int.le_of_lt (Int.pow_pos (by decide))
@@ -226,7 +226,7 @@ theorem image_core_roundtrip (c : ICfg) (v : Nat → Plane) (tail : List Nat)
     show c.P + gain r b + 1 < 32
     unfold gain; split <;> (try split) <;> omega
   obtain ⟨bytes, out, henc, hdec, hpaste⟩ := tile_planes_roundtrip c.tcfg c.C c.prog (planesOf c ((List.range c.C).map dF)) tail
-    hw hh hnb hpl hz hs
+    hw hh hnb hpl hs
   refine ⟨bytes, ?_, ?_⟩
   · show (match dwtFwd c (if c.useRct then rctFwd v else v) with | none => none | some vs => _) = _
     rw [show (if c.useRct then rctFwd v else v) = p from rfl, hfwd]
